@@ -13,6 +13,12 @@ func (t *Timeline) AppendClobber(at int, j *Job) {
 	t.Jobs = append(append(t.Jobs[:at], j), t.Jobs[at:]...)
 }
 
+// AppendClobber2: the tail is sliced off first, but it still aliases the array the inner append writes into.
+func (t *Timeline) AppendClobber2(at int, j *Job) {
+	rest := t.Jobs[at:]
+	t.Jobs = append(append(t.Jobs[:at], j), rest...)
+}
+
 // AppendInsertOK: the usual correct idioms must not match.
 func (t *Timeline) AppendInsertOK(at int, j *Job) {
 	t.Jobs = append(t.Jobs, nil)
